@@ -8,5 +8,11 @@ of this property were written against (`Tea.Doc`). Written by checklib/mkbridges
 namespace Tea.Props.Bridge.C09
 
 theorem bufsize : Tea.Gen.fact_bufsize = Tea.Doc.fact_bufsize := rfl
+theorem body_readAnsiInputs : Tea.Gen.fact_body_readAnsiInputs = Tea.Doc.fact_body_readAnsiInputs := rfl
+theorem body_detectOneMsg : Tea.Gen.fact_body_detectOneMsg = Tea.Doc.fact_body_detectOneMsg := rfl
+theorem body_detectSequence : Tea.Gen.fact_body_detectSequence = Tea.Doc.fact_body_detectSequence := rfl
+theorem body_detectBracketedPaste : Tea.Gen.fact_body_detectBracketedPaste = Tea.Doc.fact_body_detectBracketedPaste := rfl
+theorem body_detectReportFocus : Tea.Gen.fact_body_detectReportFocus = Tea.Doc.fact_body_detectReportFocus := rfl
+theorem body_isIncompleteEvent : Tea.Gen.fact_body_isIncompleteEvent = Tea.Doc.fact_body_isIncompleteEvent := rfl
 
 end Tea.Props.Bridge.C09
